@@ -973,6 +973,11 @@ func callBuiltin(caller *frame, callpos token.Pos, fn *ssa.Builtin, args []value
 		if len(args) == 1 {
 			return args[0]
 		}
+		if len(released) != 0 {
+			if a0, ok := args[0].([]value); ok && cap(a0) > 0 {
+				checkReleased(caller, &a0[:1][0], callpos)
+			}
+		}
 		if s, ok := args[1].(symstr); ok {
 			return append(args[0].([]value), []value(s)...)
 		}
@@ -995,6 +1000,14 @@ func callBuiltin(caller *frame, callpos token.Pos, fn *ssa.Builtin, args []value
 		if _, ok := src.(string); ok {
 			params := fn.Type().(*types.Signature).Params()
 			src = conv(params.At(0).Type(), params.At(1).Type(), src)
+		}
+		if len(released) != 0 {
+			if a0 := args[0].([]value); cap(a0) > 0 {
+				checkReleased(caller, &a0[:1][0], callpos)
+			}
+			if a1 := src.([]value); cap(a1) > 0 {
+				checkReleased(caller, &a1[:1][0], callpos)
+			}
 		}
 		return copy(args[0].([]value), src.([]value))
 
